@@ -15,10 +15,10 @@ for k in sorted(os.listdir(out)):
     if not (os.path.exists(pf) and os.path.exists(run)): continue
     sh('git checkout -- . && git clean -fdq',wt)
     log={}
-    rc,o=sh(f'sh {run} {wt}',wt); log['clean_demo_exit']=rc
+    rc,o=sh(f'bash {run} {wt}',wt); log['clean_demo_exit']=rc
     rc2,o2=sh(f'git apply {pf}',wt); log['patch_applies']=(rc2==0)
     rc3,o3=sh('go build ./...',wt); log['patched_build_ok']=(rc3==0)
-    rc4,o4=sh(f'sh {run} {wt}',wt); log['patched_demo_exit']=rc4
+    rc4,o4=sh(f'bash {run} {wt}',wt); log['patched_demo_exit']=rc4
     rc5,o5=sh(BASE,wt,3600); log['patched_offline_tests_ok']=(rc5==0)
     sh('git checkout -- . && git clean -fdq',wt)
     ok = log['clean_demo_exit']==0 and log['patch_applies'] and log['patched_build_ok'] and log['patched_demo_exit']!=0 and log['patched_offline_tests_ok']
